@@ -27,7 +27,6 @@ package peerstore
 //@   modifies *
 //@   ensures stored: result == nil
 //@   ensures recorded: (p.PeerID in g.peerMap) && g.peerMap[p.PeerID].id == p.PeerID && g.peerMap[p.PeerID].ip == p.IP && g.peerMap[p.PeerID].port == p.Port && g.peerMap[p.PeerID].complete == p.Complete && g.peerMap[p.PeerID].expiresAt == s.clk.now + s.config.TTL
-//@   loop 0 invariant none: true
 
 // GetPeers: only the size bound is under contract here. That the returned peers are distinct
 // follows from the group invariant (distinct ids in peerList) and rand.Perm returning distinct
